@@ -101,6 +101,18 @@ class C03(Prop):
         maxname = 10 if fmt in ("phylip", "phylips") and rng.random() < 0.7 else 14
         a = G.rand_aln(rng, kind, nseq, alen, gapchars=gaps, lower=lower, maxname=maxname,
                        namechars="abcdefghijklmnopqrstuvwxyzABCDEFGHIJKLMNOPQRSTUVWXYZ0123456789_|.:+[]()" + ("/-" if rng.random() < 0.5 else ""))
+        if a.n >= 2 and rng.random() < 0.4:
+            # prefix-related / near-identical names in every relative order (s1 / s10 / s1.1 / S1 / s): name lookups must be exact
+            base = G.rand_name(rng, 6, "abcdefghijklmnopqrstuvwxyzABCDEFGHIJKLMNOPQRSTUVWXYZ0123456789_")
+            fam = [base, base + "0", base + "1", base + ".1", base + "x", base + base[-1], base.swapcase(), base + "_2", base + "10", base + "01"]
+            if len(base) > 1: fam += [base[:-1], base[:1]]
+            fam = [x for x in dict.fromkeys(fam) if x and x[0] not in "#/>-."]
+            if fmt in ("phylip", "phylips"): fam = [x for x in fam if len(x) <= 10]
+            rng.shuffle(fam)
+            k = min(len(fam), a.n, rng.choice([2, 3, 4, a.n]))
+            pos = rng.sample(range(a.n), k)
+            for pp, nm in zip(pos, fam[:k]):
+                if nm not in a.names: a.names[pp] = nm
         if abc != "text" and rng.random() < 0.3:
             # missing-data '~' and nonresidue '*' symbols in digital alignments
             rows = []
@@ -111,6 +123,13 @@ class C03(Prop):
                 rows.append("".join(r))
             a.rows = rows
         if rng.random() < 0.75: G.annotate(rng, a, full=True)
+        if a.wgt and a.n >= 3 and rng.random() < 0.5:
+            # with weights present the sequence order is pinned; thin the other per-sequence fields to non-contiguous subsets
+            for f in ("acc", "desc"):
+                v = getattr(a, f)
+                if v: setattr(a, f, [x if (i % 2 == 0 or rng.random() < 0.3) else None for i, x in enumerate(v)] if any(x for i, x in enumerate(v) if i % 2 == 0) else v)
+            a.gs = [(t, [x if (i % 2 == 1 or rng.random() < 0.3) else None for i, x in enumerate(v)]) for t, v in a.gs]
+            a.gs = [(t, v) for t, v in a.gs if any(v)]
         # same finding, #=GR tags: the tag order of the re-read alignment is the order of first mention; give the first sequence every tag
         a.gr = [(t, [v[0] or "".join(rng.choice("abc.*") for _ in range(a.alen))] + v[1:]) for t, v in a.gr]
         if not a.wgt:
